@@ -156,6 +156,12 @@ CheckRecord(n, pre, m, rec, entered) ==
     \* bookkeeping for the orchestration (not a judgement): was a round vetoed in this step?
     /\ IF \E i \in 1 .. Len(m.rounds) : m.rounds[i][1] = "vetoed" THEN PrintT(<<"NOTE", n, "vetoed">>) ELSE TRUE
 
+\* silent comparison of everything the functional projections look at
+Agrees(m, rec) ==
+    /\ m.ev = rec.ev
+    /\ m.draws = rec.draws
+    /\ rec.a[1] = "del" \/ (LET e == ToObs(m) IN (\A f \in Fields : e[f] = rec.post[f]) /\ m.prev = rec.post.prev)
+
 PostOf(rec) == IF rec.a[1] = "del" THEN BlankObs ELSE <<FALSE, rec.post>>
 
 TraceInit == l = 1 /\ obs = [i \in Slots |-> BlankObs] /\ ent = [i \in Slots |-> {}]
@@ -165,8 +171,12 @@ TraceNext ==
     /\ LET rec == T[l]
            pre == obs[rec.i]
            m   == Step(FromObs(pre), rec.a, rec.sc)
+           \* where an open finding's deviation switch mattered, the intended behaviour is acceptable too
+           mI  == Step([FromObs(pre) EXCEPT !.dev = {}], rec.a, rec.sc)
            e0  == IF rec.a[1] = "new" THEN {} ELSE ent[rec.i]
-       IN /\ CheckRecord(l, pre, m, rec, e0)
+       IN /\ IF m.notes = {} THEN CheckRecord(l, pre, m, rec, e0)
+             ELSE IF Agrees(m, rec) THEN CheckRecord(l, pre, m, rec, e0) /\ PrintT(<<"NOTE", l, m.notes>>)
+             ELSE CheckRecord(l, pre, mI, rec, e0)
           /\ obs' = [obs EXCEPT ![rec.i] = PostOf(rec)]
           /\ ent' = [ent EXCEPT ![rec.i] = BalancedRun(e0, rec.ev).ent]
     /\ l' = l + 1
